@@ -91,6 +91,8 @@ pub fn is_target_manifest_path(path: &Path) -> bool {
 pub struct ManagedPathsFromManifests {
     pub managed_paths: ManagedPaths,
     pub warnings: Vec<String>,
+    /// True when at least one root has a usable manifest (even one that lists no files).
+    pub any_usable: bool,
 }
 
 pub(crate) fn read_target_manifest_soft(
@@ -168,6 +170,7 @@ pub fn load_managed_paths_from_manifests(
 ) -> anyhow::Result<ManagedPathsFromManifests> {
     let mut out = ManagedPaths::new();
     let mut warnings: Vec<String> = Vec::new();
+    let mut any_usable = false;
     for root in roots {
         let preferred = manifest_path_for_target(&root.root, &root.target);
         let legacy = legacy_manifest_path(&root.root);
@@ -193,6 +196,7 @@ pub fn load_managed_paths_from_manifests(
         let Some(manifest) = manifest else {
             continue;
         };
+        any_usable = true;
         for f in manifest.managed_files {
             if let Err(err) = ensure_safe_relative_path(&f.path) {
                 warnings.push(format!(
@@ -212,6 +216,7 @@ pub fn load_managed_paths_from_manifests(
     Ok(ManagedPathsFromManifests {
         managed_paths: out,
         warnings,
+        any_usable,
     })
 }
 
